@@ -197,6 +197,38 @@ class World:
             self.add(blob_get(tgt, d))
             self.add(upload_get(tgt, sid))
         self.contents.add(data)
+        if rng.random() < 0.25:
+            self.mount_twice()
+
+    def mount_twice(self):
+        """two fallback sessions opened for the same digest (mounts from a repository that does not hold it), completed in
+        an interleaved way - one with the content, one with something else: each session has its own staging"""
+        rng = self.rng
+        tgt = self.repo()
+        data = b"twice-" + self.content() + bytes([65 + rng.randrange(26)]) * rng.randrange(1, 20)
+        self.contents.add(data)
+        alg = rng.choice(["sha256", "sha256", "sha512"])
+        d = dg(alg, data)
+        k1 = self.add(upload_post(tgt, mount=d, frm="nosuch/source"))
+        k2 = self.add(upload_post(tgt, mount=d, frm="nosuch/source"))
+        s1, s2 = "$SID%d$" % k1, "$SID%d$" % k2
+        junk = b"GARBAGE-" * rng.randrange(1, 4)
+        order = rng.choice(["12", "21", "1x2", "2x1"])
+        if "x" in order:
+            # one of them sends a first chunk before the other one completes
+            first, other = (s1, s2) if order[0] == "1" else (s2, s1)
+            h = len(data) // 2
+            self.add(upload_patch(tgt, first, None, state_token(0), data[:h]))
+            self.add(upload_put(tgt, other, None, d, state_token(0), junk))
+            self.add(blob_get(tgt, d))
+            self.add(upload_put(tgt, first, None, d, state_token(h), data[h:]))
+        else:
+            good, bad_ = (s1, s2) if order == "12" else (s2, s1)
+            self.add(upload_put(tgt, good, None, d, state_token(0), data))
+            self.add(blob_get(tgt, d))
+            self.add(upload_put(tgt, bad_, None, d, state_token(0), junk))
+        self.add(blob_get(tgt, d))
+        self.add(blob_get(tgt, d, head=True))
 
     # -- manifests
     def ensure_blob(self, repo, data):
@@ -273,7 +305,10 @@ class World:
                     # annotations of a child descriptor belong to the index that lists it: a name there is not a tag of the repository
                     extra["annotations"] = rng.choice([{"org.opencontainers.image.ref.name": rng.choice(TAGS)}, {"note": "child"},
                                                        {"org.opencontainers.image.ref.name": rng.choice(TAGS[:3]), "k": "v"}])
-                kids.append(desc(mt, b, **extra))
+                kd = desc(mt, b, **extra)
+                if rng.random() < 0.15:
+                    kd["size"] = rng.choice([0, max(0, len(b) - 1), len(b) // 2, len(b) + 9])      # (the client's word, not checked)
+                kids.append(kd)
         if missing:
             kids.append(desc(MT_OCI_M, b"missing-child-%d" % rng.randrange(5)))
         subject = self.pick_subject(repo) if artifact else None
@@ -318,13 +353,34 @@ class World:
         if rng.random() < 0.12 * self.profile["bad"]:
             bad = True
             y = rng.choice(["wrongdigest", "badctype", "othertype", "truncated", "trailing", "badref", "notjson",
-                            "toolarge", "typemismatch", "bodytype", "baddigestref", "wrongtype", "wrongtype"])
+                            "toolarge", "typemismatch", "bodytype", "baddigestref", "wrongtype", "wrongtype", "schemaversion", "badheader"])
             if y == "wrongdigest":
                 ref = self.wrong_digest(alg, body)
             elif y == "badctype":
                 ctype = rng.choice(["application/json", "text/plain", "application/vnd.oci.image.config.v1+json"])
             elif y == "othertype":
                 ctype = MT_OCI_I if mt in (MT_OCI_M, MT_DOCK_M) else MT_OCI_M
+            elif y == "schemaversion":
+                # a schemaVersion other than 2 (or none): what kind of manifest the body is does not depend on it
+                try:
+                    j = json.loads(body)
+                    v_ = rng.choice([1, 3, None, 0])
+                    if v_ is None:
+                        j.pop("schemaVersion", None)
+                    else:
+                        j["schemaVersion"] = v_
+                    body = jdump(j)
+                    self.contents.add(body)
+                    ref = rng.choice([TAGS[0], dg(alg, body)])
+                    if rng.random() < 0.7:
+                        ctype = rng.choice([MT_OCI_I, MT_DOCK_I]) if mt in (MT_OCI_M, MT_DOCK_M) else rng.choice([MT_OCI_M, MT_DOCK_M])
+                    else:
+                        bad = False          # (a control: the right kind of Content-Type)
+                except Exception:
+                    pass
+            elif y == "badheader":
+                # Content-Type values that are not a media type at all (the body is fine)
+                ctype = rng.choice(["text html", "application/json, text/plain", "application/", "/", mt + "/extra", "=utf-8", mt + " ; ; x", "a/b/c"])
             elif y == "truncated":
                 body = body[:max(1, len(body) // 2)]
                 ref = rng.choice([TAGS[0], dg(alg, body)])
@@ -531,6 +587,12 @@ class World:
         imt = rng.choice([MT_OCI_I, MT_DOCK_I])
         # (a descriptor may embed the content it names - `data` - or something else: what is served is the stored manifest)
         def kid_desc(b, mt):
+            kd = kid_desc0(b, mt)
+            if rng.random() < 0.35:
+                kd["size"] = rng.choice([0, max(0, len(b) - 1), len(b) // 2, len(b) + 9])      # (the client's word, not checked)
+            return kd
+
+        def kid_desc0(b, mt):
             r = rng.random()
             if r < 0.25:
                 return dict(desc(mt, b), data=base64.b64encode(b'{"schemaVersion":2,"embedded":"not the child"}').decode())
